@@ -7,7 +7,7 @@ regenerated constants `Facts.MaxColumns`, `Facts.MinColumns`, `Facts.TotalRows`;
 `limits_ok` pins the values the arithmetic below relies on, so an edit of the
 constants in templates.go breaks this file.
 -/
-import XlModel.Lemmas.Ref4
+import XlModel.Lemmas.Ref5
 
 namespace XlModel.Props.C20
 open XlModel XlModel.Ref
@@ -166,6 +166,63 @@ theorem fixed_reject_witnesses :
     (∃ e, columnNameToNumber (List.replicate 14 'Z') = .error e) := by
   refine ⟨⟨.cellName, by decide +kernel⟩, ⟨.cellName, by decide +kernel⟩,
     ⟨.cellName, by decide +kernel⟩, ⟨.colNumber, by decide +kernel⟩⟩
+
+/-! ## Ranges: `coordinatesToRangeRef` / `rangeRefToCoordinates` / `sortCoordinates` -/
+
+/-- `sortCoordinates` returns an ordered rectangle … -/
+theorem sort_sorted (c1 r1 c2 r2 : Int) :
+    (sortCoordinates (c1, r1, c2, r2)).1 ≤ (sortCoordinates (c1, r1, c2, r2)).2.2.1 ∧
+    (sortCoordinates (c1, r1, c2, r2)).2.1 ≤ (sortCoordinates (c1, r1, c2, r2)).2.2.2 := by
+  unfold sortCoordinates
+  dsimp only
+  split <;> split <;> (constructor <;> simp <;> omega)
+
+/-- … with the same corner columns and rows, is the identity on ordered input, and is idempotent -/
+theorem sort_of_sorted (c1 r1 c2 r2 : Int) (hc : c1 ≤ c2) (hr : r1 ≤ r2) :
+    sortCoordinates (c1, r1, c2, r2) = (c1, r1, c2, r2) := by
+  unfold sortCoordinates
+  have a : ¬ c2 < c1 := by omega
+  have b : ¬ r2 < r1 := by omega
+  simp [a, b]
+
+theorem sort_idem (q : Int × Int × Int × Int) :
+    sortCoordinates (sortCoordinates q) = sortCoordinates q := by
+  obtain ⟨c1, r1, c2, r2⟩ := q
+  have h := sort_sorted c1 r1 c2 r2
+  generalize sortCoordinates (c1, r1, c2, r2) = t at h
+  obtain ⟨a, b, c, d⟩ := t
+  exact sort_of_sorted a b c d h.1 h.2
+
+/-- coordinates → range reference → coordinates, for every pair of in-grid corners
+(ordered or not), relative and absolute -/
+theorem range_encode_decode (c1 r1 c2 r2 : Nat) (abs : Bool)
+    (hc1 : 1 ≤ c1 ∧ c1 ≤ Facts.MaxColumns) (hr1 : 1 ≤ r1 ∧ r1 ≤ Facts.TotalRows)
+    (hc2 : 1 ≤ c2 ∧ c2 ≤ Facts.MaxColumns) (hr2 : 1 ≤ r2 ∧ r2 ≤ Facts.TotalRows) :
+    ∃ s, coordinatesToRangeRef ((c1 : Int), (r1 : Int), (c2 : Int), (r2 : Int)) abs = .ok s ∧
+      rangeRefToCoordinates s = .ok ((c1 : Int), (r1 : Int), (c2 : Int), (r2 : Int)) := by
+  have e1 := cell_encode_eq c1 r1 abs hc1.1 hc1.2 hr1.1 hr1.2
+  have e2 := cell_encode_eq c2 r2 abs hc2.1 hc2.2 hr2.1 hr2.2
+  have hd : IsDol (if abs then ['$'] else []) := by cases abs <;> simp [IsDol]
+  refine ⟨_, by unfold coordinatesToRangeRef; simp only [e1, e2]; rfl, ?_⟩
+  have f1 := filter_dollar_encoded _ (numToName c1) _ (itoaAux r1) hd hd (numToName_letters c1)
+    (itoaAux_digits r1)
+  have f2 := filter_dollar_encoded _ (numToName c2) _ (itoaAux r2) hd hd (numToName_letters c2)
+    (itoaAux_digits r2)
+  have nc : ∀ (c r : Nat), ∀ x ∈ numToName c ++ itoaAux r, isColon x = false := by
+    intro c r x hx
+    rcases List.mem_append.mp hx with hx | hx
+    · exact isLetter_not_colon (numToName_letters c x hx)
+    · exact isDigit_not_colon (itoaAux_digits r x hx)
+  have d1 := decode_of_shape (cell_encode_shape c1 r1 false hc1.1 hc1.2 hr1.1 hr1.2)
+  have d2 := decode_of_shape (cell_encode_shape c2 r2 false hc2.1 hc2.2 hr2.1 hr2.2)
+  simp only [Bool.false_eq_true, if_false, List.nil_append, List.append_nil] at d1 d2
+  have fc : List.filter (fun c => !isDollar c) [':'] = [':'] := by decide
+  unfold rangeRefToCoordinates
+  rw [List.filter_append, List.filter_append, f1, f2, fc]
+  have e : numToName c1 ++ itoaAux r1 ++ [':'] ++ (numToName c2 ++ itoaAux r2) =
+      (numToName c1 ++ itoaAux r1) ++ ':' :: (numToName c2 ++ itoaAux r2) := by simp
+  rw [e, splitColon_two _ _ (nc c1 r1) (nc c2 r2)]
+  simp only [d1, d2]
 
 /-! ## Spellings: every accepted spelling of a cell addresses the same cell -/
 
